@@ -21,6 +21,38 @@ type stringer struct{}
 func (stringer) String() string { return "stringer-panic" }
 
 // Request identifiers select the handler behaviour: ok*, terr*, perr*, panicS*, panicE*, panicT*, panicX*, panicN*, slow*.
+// undecodableRequest builds a correctly framed request message that stops being decodable after a good header:
+// "item" (one announced item whose operation is a text), "item2" (two announced, a good one then the bad one),
+// "payload" (a good operation code with a payload of the wrong shape), "nocount" (header without batch count, one good item).
+func undecodableRequest(kind string) []byte {
+	hdr := func(n int32, count bool) ttlv.Value {
+		h := ttlv.Struct{{Tag: kmip.TagProtocolVersion, Value: ttlv.Struct{{Tag: kmip.TagProtocolVersionMajor, Value: int32(1)}, {Tag: kmip.TagProtocolVersionMinor, Value: int32(4)}}}}
+		if count {
+			h = append(h, ttlv.Value{Tag: kmip.TagBatchCount, Value: n})
+		}
+		return ttlv.Value{Tag: kmip.TagRequestHeader, Value: h}
+	}
+	good := ttlv.Value{Tag: kmip.TagBatchItem, Value: ttlv.Struct{{Tag: kmip.TagOperation, Value: ttlv.Enum(kmip.OperationActivate)},
+		{Tag: kmip.TagRequestPayload, Value: ttlv.Struct{{Tag: kmip.TagUniqueIdentifier, Value: "ok1"}}}}}
+	bad := ttlv.Value{Tag: kmip.TagBatchItem, Value: ttlv.Struct{{Tag: kmip.TagOperation, Value: "x"}}}
+	badPayload := ttlv.Value{Tag: kmip.TagBatchItem, Value: ttlv.Struct{{Tag: kmip.TagOperation, Value: ttlv.Enum(kmip.OperationActivate)},
+		{Tag: kmip.TagRequestPayload, Value: ttlv.Struct{{Tag: kmip.TagUniqueIdentifier, Value: int32(7)}}}}}
+	var m ttlv.Struct
+	switch kind {
+	case "item":
+		m = ttlv.Struct{hdr(1, true), bad}
+	case "item2":
+		m = ttlv.Struct{hdr(2, true), good, bad}
+	case "payload":
+		m = ttlv.Struct{hdr(1, true), badPayload}
+	case "nocount":
+		m = ttlv.Struct{hdr(0, false), good}
+	default:
+		panic("undecodableRequest: unknown kind " + kind)
+	}
+	return ttlv.MarshalTTLV(ttlv.Value{Tag: kmip.TagRequestMessage, Value: m})
+}
+
 func reqBytes(ids ...string) []byte {
 	var pls []kmip.OperationPayload
 	for _, id := range ids {
@@ -199,6 +231,12 @@ func (w *srvWorld) runScript(name string, ops []Op) {
 				msg.BatchItem[0].MessageExtension = &kmip.MessageExtension{VendorIdentification: "v", CriticalityIndicator: true}
 			case "max-response-size-negative":
 				msg.Header.MaximumResponseSize = -1
+			case "count-one-no-items": // the header announces one item, the message carries none
+				msg.BatchItem = nil
+			case "count-two-no-items":
+				msg.BatchItem, msg.Header.BatchCount = nil, 2
+			case "count-one-two-items":
+				msg.BatchItem = append(msg.BatchItem, msg.BatchItem[0])
 			}
 			_, _ = c.Write(ttlv.MarshalTTLV(&msg))
 			fr, err := c.RecvFrame()
@@ -226,6 +264,10 @@ func (w *srvWorld) runScript(name string, ops []Op) {
 		case "G":
 			_, _ = c.Write([]byte{0x42, 0x00, 0x78, 0xFF, 0, 0, 0, 8, 1, 2, 3, 4, 5, 6, 7, 8})
 		case "D": // correctly framed structure that is not a decodable request
+			if len(op.IDs) > 0 {
+				_, _ = c.Write(undecodableRequest(op.IDs[0]))
+				break
+			}
 			_, _ = c.Write([]byte{0x42, 0x00, 0x78, 0x01, 0, 0, 0, 16, 0x42, 0x00, 0x77, 0x02, 0, 0, 0, 4, 0, 0, 0, 1, 0, 0, 0, 0})
 		case "B":
 			_, _ = c.Write([]byte{0x42, 0x00, 0x78, 0x01, 0x00, 0x20, 0x00, 0x00})
@@ -393,6 +435,10 @@ func init() {
 	srv("srv-4bytes-then-close", "4 bytes then close", SrvCfg{Conns: [][]Op{{{K: "4", IDs: []string{"ok1"}}, OpClose}}})
 	srv("srv-garbage", "invalid type byte: framed garbage gets one invalid-message response, then the stream ends", SrvCfg{Conns: [][]Op{{OpGarbage, OpInvalid, OpEOF}}})
 	srv("srv-undecodable", "well-framed but undecodable message gets one invalid-message response, then the stream ends", SrvCfg{Conns: [][]Op{{OpUndecod, OpInvalid, OpEOF}}})
+	for _, k := range []string{"item", "item2", "payload", "nocount"} {
+		srv("srv-undecodable-"+k, "a good header followed by something undecodable ("+k+"): one invalid-message response, then the stream ends", SrvCfg{Conns: [][]Op{{{K: "D", IDs: []string{k}}, OpInvalid, OpEOF}}})
+	}
+	srv("srv-refused-requests-c", "requests whose header announces items the message does not carry (one / two announced, none present; one announced, two present), each answered once, then a good request", SrvCfg{Conns: [][]Op{{odd("count-one-no-items"), odd("count-two-no-items"), odd("count-one-two-items"), W("ok1"), R("ok1"), OpClose}}})
 	srv("srv-toobig", "header announcing 2 MiB gets one invalid-message response, then the stream ends", SrvCfg{Conns: [][]Op{{OpTooBig, OpInvalid, OpEOF}}})
 	srv("srv-req-then-garbage", "valid request answered, then garbage answered once", SrvCfg{Conns: [][]Op{{W("ok1"), R("ok1"), OpGarbage, OpInvalid, OpEOF}}})
 	srv("srv-slow-close", "client disconnects while the handler is running; gate opened after the close", SrvCfg{Gates: []string{"slow1"}, Conns: [][]Op{{W("slow1"), OpClose, {K: "O", Gate: "slow1"}}}})
